@@ -28,3 +28,6 @@
 (assert (forall ((x Coins) (c T_sdk_Coin)) (! (=> (Coins_wf (Coins_lit_add x c)) (and (Coins_wf x) (> (T_sdk_Coin_Amount c) 0))) :pattern ((Coins_wf (Coins_lit_add x c))))))
 ; (no extensionality axiom: a literal such as Coins{0ujkl} has the same amounts as the empty
 ; value but is not valid, so values are deliberately not identified by their amounts)
+; sdk.ValidateDenom
+(declare-fun valid_denom (Str) Bool)
+(assert (valid_denom {str "ujkl"}))
